@@ -255,12 +255,16 @@ class Repo:
 
     def callers_of(self, target: Func):
         """(caller Func, Call node) for every resolved call of target."""
-        out = []
-        for f in self.all_funcs():
-            for n in walk_own(f.node):
-                if isinstance(n, ast.Call) and same_func(self.resolve_call(f, n), target):
-                    out.append((f, n))
-        return out
+        if not hasattr(self, "_callers"):
+            idx = {}
+            for f in self.all_funcs():
+                for n in walk_own(f.node):
+                    if isinstance(n, ast.Call):
+                        t = self.resolve_call(f, n)
+                        if t is not None:
+                            idx.setdefault((t.module.name, t.qualname), []).append((f, n))
+            self._callers = idx
+        return list(self._callers.get((target.module.name, target.qualname), []))
 
     def digest(self):
         import hashlib
@@ -405,6 +409,10 @@ class _ParamSubst(ast.NodeTransformer):
         return node
 
 
+def is_static(func):
+    return any(norm(d) == "staticmethod" for d in func.node.decorator_list)
+
+
 def inline_simple_calls(repo, func, node=None, depth=2):
     """Deep copy of `node` (default: the function's AST) in which every call of a program function whose body is a
     single `return <expr>` (after an optional docstring) is replaced by that expression with the parameters replaced
@@ -421,7 +429,7 @@ def inline_simple_calls(repo, func, node=None, depth=2):
             if callee is None or callee is func:
                 return call
             body = [st for st in callee.node.body if not (isinstance(st, ast.Expr) and isinstance(st.value, ast.Constant))]
-            if len(body) > 1 and isinstance(body[-1], ast.Return) and body[-1].value is not None and all(isinstance(st, ast.Assign) and len(st.targets) == 1 and isinstance(st.targets[0], ast.Name) for st in body[:-1]):
+            if len(body) > 1 and callee.module is func.module and isinstance(body[-1], ast.Return) and body[-1].value is not None and all(isinstance(st, ast.Assign) and len(st.targets) == 1 and isinstance(st.targets[0], ast.Name) for st in body[:-1]):
                 # pure temporaries followed by one return: the temporaries are substituted into the returned expression
                 tnames = [st.targets[0].id for st in body[:-1]]
                 if len(set(tnames)) == len(tnames) and not (set(tnames) & set(callee.params)):
@@ -433,11 +441,11 @@ def inline_simple_calls(repo, func, node=None, depth=2):
                     ast.fix_missing_locations(body[0])
             if len(body) != 1 or not isinstance(body[0], ast.Return) or body[0].value is None:
                 return call
-            params = callee.params[1:] if (callee.cls and isinstance(call.func, ast.Attribute)) else callee.params
+            params = callee.params[1:] if (callee.cls and isinstance(call.func, ast.Attribute) and not is_static(callee)) else callee.params
             if any(isinstance(a, ast.Starred) for a in call.args) or len(call.args) > len(params):
                 return call
             mapping = {p_: a for p_, a in zip(params, call.args)}
-            if callee.cls and isinstance(call.func, ast.Attribute) and callee.params and callee.params[0] == "self":
+            if callee.cls and isinstance(call.func, ast.Attribute) and callee.params and callee.params[0] == "self" and not is_static(callee):
                 if not isinstance(call.func.value, (ast.Name, ast.Attribute)):
                     return call
                 mapping["self"] = call.func.value
@@ -548,6 +556,7 @@ def inline_tail_calls(repo, func, depth=2, keep=None):
     root = copy.deepcopy(func.node)
     changed_any = [False]
     caller_names = {x.id for x in ast.walk(func.node) if isinstance(x, ast.Name)} | set(func.params)
+    inl_counter = [0]
 
     def expand(st):
         """-> replacement statement list or None"""
@@ -570,6 +579,8 @@ def inline_tail_calls(repo, func, depth=2, keep=None):
             if not (isinstance(call.func, ast.Attribute) and isinstance(call.func.value, ast.Name) and repo.local_class_of(func, call.func.value.id) == (callee.module.name, callee.cls) and callee.params and callee.params[0] == "self" and callee.name != "__init__"):
                 return None
             recv = call.func.value.id
+        elif callee.cls is not None and callee.cls == func.cls and isinstance(call.func, ast.Attribute) and isinstance(call.func.value, ast.Name) and call.func.value.id == "self" and callee.params and callee.params[0] == "self":
+            recv = "self"
         is_gen = any(isinstance(x, (ast.Yield, ast.YieldFrom)) for x in ast.walk(callee.node))
         if is_gen != (kind == "yieldfrom"):
             return None
@@ -582,7 +593,7 @@ def inline_tail_calls(repo, func, depth=2, keep=None):
             return None  # single-return helpers are handled by expression inlining
         if kind == "expr" and ((callee.cls is not None and recv is None) or any(isinstance(x, ast.Return) and x.value is not None for x in ast.walk(callee.node))):
             return None  # only plain procedures (no result) are inlined at statement calls
-        params = callee.params[1:] if (callee.cls and isinstance(call.func, ast.Attribute)) else callee.params
+        params = callee.params[1:] if (callee.cls and isinstance(call.func, ast.Attribute) and not is_static(callee)) else callee.params
         vararg = callee.node.args.vararg.arg if callee.node.args.vararg is not None else None
         params = [p_ for p_ in params if p_ != vararg]
         amap = {p_: a for p_, a in zip(params, call.args)}
@@ -614,7 +625,18 @@ def inline_tail_calls(repo, func, depth=2, keep=None):
                 pre.append(ast.copy_location(ast.Assign(targets=[ast.Name(id=local, ctx=ast.Store())], value=copy.deepcopy(a)), st))
             else:
                 exprs[p_] = a
+        # the helper's own locals must not clash with names of the caller or of an earlier inlined copy; result
+        # variables handed back by name (x = helper() with `return x`) are matched up below, before this renaming matters
+        ret_names = {x.id for r in ast.walk(callee.node) if isinstance(r, ast.Return) and r.value is not None for x in ast.walk(r.value) if isinstance(x, ast.Name)}
+        for w in sorted(written - set(callee.params)):
+            if w in caller_names and w not in names and not (kind == "assign" and w in ret_names):
+                inl_counter[0] += 1
+                names[w] = f"{w}__{inl_counter[0]}"
         body = [_Rename(names, exprs).visit(copy.deepcopy(x)) for x in cbody]
+        for b_ in body:
+            for x in ast.walk(b_):
+                if isinstance(x, ast.Name):
+                    caller_names.add(x.id)
         if vararg is not None:
             # f(x, *extra) inside the helper, with extra bound to the surplus positional arguments of this call
             if any(isinstance(x, ast.Name) and x.id == vararg and not isinstance(getattr(x, "_star_parent", None), ast.Starred) for b_ in body for x in ast.walk(b_) if False):
@@ -801,8 +823,13 @@ def const_fold(expr, consts, depth=0):
     (`"\\t".join(["%s"] * 6 + ["%d"] * 6)`); raises ValueError when the expression is not such a constant."""
     if depth > 6:
         raise ValueError("too deep")
-    if isinstance(expr, ast.Constant) and isinstance(expr.value, (str, int)) and not isinstance(expr.value, bool):
+    if isinstance(expr, ast.Constant) and isinstance(expr.value, (str, int, bytes)) and not isinstance(expr.value, bool):
         return expr.value
+    if isinstance(expr, ast.Call) and isinstance(expr.func, ast.Name) and expr.func.id == "len" and len(expr.args) == 1 and not expr.keywords:
+        v = const_fold(expr.args[0], consts, depth + 1)
+        if isinstance(v, (str, bytes, list, tuple)):
+            return len(v)
+        raise ValueError("not a constant")
     if isinstance(expr, ast.Name) and expr.id in consts:
         return const_fold(consts[expr.id], consts, depth + 1)
     if isinstance(expr, (ast.List, ast.Tuple)):
@@ -851,7 +878,7 @@ def with_str_consts(func):
             v = const_fold(e, func.module.consts)
         except (ValueError, RecursionError):
             continue
-        if isinstance(v, str):
+        if isinstance(v, (str, bytes)):
             values[name] = v
     if not values:
         return func
@@ -968,22 +995,35 @@ def unroll_const_loops(func, limit=8):
                 lst = getattr(st, fld, None)
                 if isinstance(lst, list) and lst and isinstance(lst[0], ast.stmt) and not isinstance(st, (ast.FunctionDef, ast.AsyncFunctionDef, ast.ClassDef)):
                     setattr(st, fld, block(lst))
-            if isinstance(st, ast.For) and isinstance(st.target, ast.Name) and not st.orelse:
-                it = st.iter
+            enum_target = None
+            if isinstance(st, ast.For) and not st.orelse and isinstance(st.target, ast.Tuple) and len(st.target.elts) == 2 and all(isinstance(e, ast.Name) for e in st.target.elts) and isinstance(st.iter, ast.Call) and isinstance(st.iter.func, ast.Name) and st.iter.func.id == "enumerate" and st.iter.args:
+                # for i, x in enumerate((c1, ..., cn)[, start]): both i and x are constants of each copy
+                start = st.iter.args[1] if len(st.iter.args) > 1 else next((k.value for k in st.iter.keywords if k.arg == "start"), ast.Constant(value=0))
+                if isinstance(start, ast.Constant) and isinstance(start.value, int):
+                    enum_target = (st.target.elts[0].id, st.target.elts[1].id, start.value, st.iter.args[0])
+            if isinstance(st, ast.For) and (isinstance(st.target, ast.Name) or enum_target) and not st.orelse:
+                it = enum_target[3] if enum_target else st.iter
                 if isinstance(it, ast.Name) and it.id in consts:
                     it = consts[it.id]
-                if isinstance(it, (ast.Tuple, ast.List)) and 1 <= len(it.elts) <= limit and all(isinstance(e, ast.Constant) for e in it.elts) and not own_jump(st.body):
+                def simple(e):
+                    return isinstance(e, (ast.Constant, ast.Name)) or (isinstance(e, ast.Tuple) and all(isinstance(x, (ast.Constant, ast.Name)) for x in e.elts))
+
+                body_stores = {x.id for b_ in st.body for x in ast.walk(b_) if isinstance(x, ast.Name) and isinstance(x.ctx, ast.Store)}
+                elem_names = {x.id for e in (it.elts if isinstance(it, (ast.Tuple, ast.List)) else []) for x in ast.walk(e) if isinstance(x, ast.Name)}
+                if isinstance(it, (ast.Tuple, ast.List)) and 1 <= len(it.elts) <= limit and all(simple(e) for e in it.elts) and not (elem_names & body_stores) and not own_jump(st.body):
                     inside = {}
                     for b_ in st.body:
                         for x in ast.walk(b_):
                             if isinstance(x, ast.Name):
                                 inside[x.id] = inside.get(x.id, 0) + 1
                     assigned = {x.id for b_ in st.body for x in ast.walk(b_) if isinstance(x, ast.Name) and isinstance(x.ctx, ast.Store)}
-                    temps = {nm for nm in assigned if inside[nm] == all_names.get(nm, 0) and nm != st.target.id}
+                    tnames = {enum_target[0], enum_target[1]} if enum_target else {st.target.id}
+                    temps = {nm for nm in assigned if inside[nm] == all_names.get(nm, 0) and nm not in tnames}
                     for k, c in enumerate(it.elts):
                         ren = {nm: f"{nm}__{k}" for nm in temps}
+                        sub = {enum_target[0]: ast.Constant(value=enum_target[2] + k), enum_target[1]: c} if enum_target else {st.target.id: c}
                         for b_ in st.body:
-                            nb = _Rename(ren, {st.target.id: c}).visit(copy.deepcopy(b_))
+                            nb = _Rename(ren, sub).visit(copy.deepcopy(b_))
                             out.append(nb)
                     changed[0] = True
                     continue
